@@ -169,6 +169,14 @@ class Interp:
                 a.data.extend(i * 3 for i in range(n_))
                 em.code("print %s.len()" % an)
                 em.out(str(len(a.data)))
+                if len(a.data) > 260:
+                    # literal (compile-time constant) indexes beyond one byte
+                    for q in (255, 256, 257, len(a.data) - 1):
+                        em.code("print %s[%d]" % (an, q))
+                        em.out(str(a.data[q]))
+                    em.code("%s[258] = 5\n%s[259] += 1" % (an, an))
+                    a.data[258] = 5
+                    a.data[259] += 1
                 return True
             if a.t == "mis":
                 em.code("from 0 to %d, bi {\n\t%s[bi + 100] = \"b\" + bi\n}" % (n_, an))
@@ -414,6 +422,19 @@ class Interp:
                 em.out("y" if a.data[i] else "n")
                 return True
             return False
+        if k == "chain2":
+            if a.t != "ln" or not a.data:
+                return False
+            i = op["i"] % len(a.data)
+            inner = a.data[i]
+            if not inner.data:
+                return False
+            j = op["j"] % len(inner.data)
+            em.code("print %s[%d][%d]" % (an, i, j))
+            em.out(str(inner.data[j]))
+            em.code("%s[%d][%d] = %d" % (an, i, j, op["v"]))
+            inner.data[j] = op["v"]
+            return True
         if k == "tmp_nest":
             # a temporary outer list that holds this list dies inside a helper; the inner list lives on
             if a.t != "li":
@@ -497,7 +518,7 @@ class Interp:
         k = op["op"]
         em = self.em
         key = op.get("k")
-        if k in ("mwrite", "mread", "mremove", "contains", "mget") and not isinstance(key, str):
+        if k in ("mwrite", "mread", "mremove", "contains", "mget", "chain") and not isinstance(key, str):
             return False
         if k == "mwrite":
             b = self.vars.get(op.get("b"))
@@ -529,6 +550,19 @@ class Interp:
         if k == "contains":
             em.code("print %s.contains_key(%s)" % (an, lit(key)))
             em.out("true" if key in a.data else "false")
+            return True
+        if k == "chain":
+            # chained index through the map into the inner list, in one expression
+            if key not in a.data or not a.data[key].data:
+                return False
+            inner = a.data[key]
+            j = op["i"] % len(inner.data)
+            em.code("print %s[%s][%d]" % (an, lit(key), j))
+            em.out(str(inner.data[j]))
+            em.code("%s[%s][%d] = %d" % (an, lit(key), j, op["v"]))
+            inner.data[j] = op["v"]
+            em.code("%s[%s][%d] += 2" % (an, lit(key), j))
+            inner.data[j] += 2
             return True
         if k == "values":
             # the list returned by values() is a temporary that shares the inner lists
@@ -689,7 +723,7 @@ def gen_op(rng, it):
     if rng.chance(1, 15):
         cands = [x for x in names if it.vars[x].t in ("li", "mis")]
         if cands:
-            return {"op": "bulk", "a": rng.choice(cands), "n": rng.choice([7, 8, 9, 15, 16, 17, 33, 64, 130])}
+            return {"op": "bulk", "a": rng.choice(cands), "n": rng.choice([7, 8, 9, 15, 16, 17, 33, 64, 130, 300])}
     a = rng.choice(names)
     o = it.vars[a]
     if o.t in LIST_T:
@@ -697,7 +731,7 @@ def gen_op(rng, it):
         kind = rng.weighted([("push", 6), ("remove", 4), ("read", 4), ("write", 4), ("opassign", 3), ("reverse", 2), ("join", 2),
                              ("clear", 1), ("clone", 2), ("alias", 3), ("map", 3), ("filter", 3), ("index_of", 3), ("len", 2),
                              ("eq", 2), ("concat", 2), ("bind", 2), ("push_fn", 1), ("new_from", 2), ("cap_call", 2), ("push_from", 1),
-                             ("tmp_nest", 2), ("filter_len", 2), ("unary_read", 2)])
+                             ("tmp_nest", 2), ("filter_len", 2), ("unary_read", 2), ("chain2", 2)])
         op = {"op": kind, "a": a}
         if kind == "new_from":
             return {"op": kind, "a": a, "i": rng.below(8), "t": rng.choice(["li", "msi"]), "v": rng.choice(INTS), "k": rng.choice(SKEYS)}
@@ -731,6 +765,8 @@ def gen_op(rng, it):
                     op["v"] = 3
             if kind == "push_fn" and n == 0:
                 op["op"] = "push"
+        if kind == "chain2":
+            return {"op": kind, "a": a, "i": rng.below(8), "j": rng.below(8), "v": rng.choice(INTS)}
         if kind in ("remove", "read", "write", "opassign", "concat", "bind", "unary_read"):
             op["i"] = pick_index(rng, n)
         if kind in ("eq", "join"):
@@ -750,8 +786,11 @@ def gen_op(rng, it):
     op = {"op": kind, "a": a}
     if o.t == "msl":
         kind = rng.weighted([("mwrite", 6), ("mread", 3), ("mget", 4), ("mremove", 2), ("contains", 2), ("len", 1), ("values", 2), ("keys", 1),
-                             ("clear", 1), ("alias", 2)])
-        op = {"op": kind, "a": a, "k": rng.choice(SKEYS), "lv": [rng.choice(INTS) for _ in range(rng.range(1, 2))]}
+                             ("clear", 1), ("alias", 2), ("chain", 4)])
+        op = {"op": kind, "a": a, "k": rng.choice(SKEYS), "lv": [rng.choice(INTS) for _ in range(rng.range(1, 2))], "i": rng.below(8),
+              "v": rng.choice(INTS)}
+        if kind == "chain" and o.data:
+            op["k"] = rng.choice(sorted(o.data.keys()))
         cands = [x for x in lists if it.vars[x].t == "li"]
         if kind == "mwrite" and cands and rng.chance(2, 3):
             op["b"] = rng.choice(cands)
